@@ -69,7 +69,7 @@ func genC12(x *Ctx) *c12Scen {
 		nInit := 0
 		maxR, moreR := 5, 600
 		crowdedSvc := false
-		if i == 0 && tp.Chance(80) {
+		if i == 0 && tp.Chance(140) {
 			maxR, moreR = 22, 960 // a crowded service: more routes than any preallocated slice, batch or small-table fast path
 			crowdedSvc = true
 			sc.Crowded = true
